@@ -39,4 +39,43 @@ CHECKS = {
         "technique": "bounded exhaustive exploration of the implementation (all budgets x configuration alphabet), "
                      "exact counter oracle",
     },
+    "C01": {
+        "engine": "solvex", "level": "exploration",
+        "text": "every per-coordinate (bound pattern x x0 placement) combination x scaling x 11 solver modes x 2-3 functions is "
+                "executed on the real solver and every argument received by the objective is compared exactly with the "
+                "bounds; a component layer drives a controller built by the real solve() through all base-shift histories "
+                "of length <=2 (thorough 3) and probes every step within +-4 ulp of each shifted bound",
+        "note": "n<=2 quick / n<=3 thorough; bound values from a fixed bank of non-representable endpoints; maxfun<=70; "
+                "trusts the recording wrapper",
+        "technique": "bounded exhaustive exploration of the implementation over a structural input alphabet (+ single "
+                     "answer deviations in thorough), exact comparison oracle",
+    },
+    "C03": {
+        "engine": "solvex", "level": "exploration",
+        "text": "all executions of solve within one (thorough: two) departure(s) from the true objective answers, at every "
+                "evaluation index, over 23 modes x 7 budgets x 2 starts; the result and - at the top of every iteration - "
+                "every interpolation point and the saved point of the live model are compared with the recorded calls "
+                "grouped by the solver's own point numbers",
+        "note": "n=2; answer alphabet {x0,best,x0.3,tie,x3,nan}; positions compared to 1e-12 relative; per-iteration view "
+                "obtained by wrapping Model.interpolate_mini_models_svd from the harness",
+        "technique": "stateless deviation-bounded model checking of the implementation (environment answers as choice "
+                     "points), recorded-call oracle",
+    },
+    "C04": {
+        "engine": "solvex", "level": "exploration",
+        "text": "all executions within one (thorough: two) answer deviation(s) under a memoised (deterministic) environment "
+                "over 18 modes incl. convex sets with simultaneously active constraints and the documented box-ball example; "
+                "soln.obj and the live min(incumbent, saved) are compared with the minimum over all recorded evaluations",
+        "note": "n=2; values recomputed with the same dot product; 1e-13 relative slack; vacuity floor requires a deviated "
+                "best value at the model-increase, budget, rhoend and small-objective exits",
+        "technique": "stateless deviation-bounded model checking of the implementation, min-over-history oracle",
+    },
+    "C08": {
+        "engine": "solvex", "level": "fault_enumeration",
+        "text": "for 12 configurations x 2 functions every evaluation index of the reference run x 7 fault kinds is executed "
+                "(plus all-calls-faulty runs; thorough: all fault pairs on three configurations); outcome compared with the "
+                "recorded calls before/after the fault, with the exact bounds and budget monitors left on",
+        "note": "fault kinds: NaN, +/-inf, 1e200 (whole vector or one component), raised exception; n=2; maxfun=40",
+        "technique": "exhaustive single-fault (thorough: double-fault) injection at every evaluation index on the real code",
+    },
 }
